@@ -798,6 +798,7 @@ def stepWasm (st : WState) (line : String) : WState × String :=
       | _, _ => (st, "bad-op")
     | "dump" => (st, fmtDump app)
     | "rawhash" => (st, "!")
+    | "nondet" => (st, "!")       -- verdict slot of slice wasm-bech-mix (implementation-only)
     | "trace" =>
       (setApp st { app with trace := [] }, "trace[" ++ " || ".intercalate app.trace ++ "]")
     | _ => (st, "bad-op")
